@@ -111,7 +111,10 @@ def check(run: core.Run) -> int:
     for kind, es in cases:
         ets = [EdgeType(u, v) for u, v in es]
         try:
-            impl.append(list(toposort_edges(ets)))
+            with core.time_limit(5):            # termination is part of the claim: a looping sort must not hang the check
+                impl.append(list(toposort_edges(ets)))
+        except core.ImplTimeout:
+            impl.append({"raises": "DoesNotTerminate"})
         except Exception as e:  # networkx raises on cyclic input
             impl.append({"raises": type(e).__name__})
     # PAFScorer.__attrs_post_init__ on a subsample: edge_inds / edge_types / sorted_edge_inds / n_nodes / n_edges,
@@ -124,14 +127,20 @@ def check(run: core.Run) -> int:
         nn = max(max(e) for e in es) + 1 + (q % 3 == 2)          # sometimes one more part than the edges mention
         names = [f"p{i}" for i in range(nn)]
         named = [(names[u], names[v]) for u, v in es]
-        if q % 2:
-            cfg = OmegaConf.create({"confmaps": {"part_names": names},
-                                    "pafs": {"edges": [list(e) for e in named], "output_stride": 2}})
-            sc = PAFScorer.from_config(cfg)
-        else:
-            sc = PAFScorer(part_names=names, edges=named, pafs_stride=2)
-        got = list(sc.sorted_edge_inds)
-        want = list(toposort_edges([EdgeType(u, v) for u, v in es]))
+        try:
+            with core.time_limit(10):
+                if q % 2:
+                    cfg = OmegaConf.create({"confmaps": {"part_names": names},
+                                            "pafs": {"edges": [list(e) for e in named], "output_stride": 2}})
+                    sc = PAFScorer.from_config(cfg)
+                else:
+                    sc = PAFScorer(part_names=names, edges=named, pafs_stride=2)
+                got = list(sc.sorted_edge_inds)
+                want = list(toposort_edges([EdgeType(u, v) for u, v in es]))
+        except core.ImplTimeout:
+            run.violation("failing-input", {"what": "building a PAFScorer for a tree skeleton does not terminate within 10 s",
+                                            "via": "from_config" if q % 2 else "init", "edges": es})
+            continue
         n_scorer += 1
         attrs_ok = ([(e.src_node_ind, e.dst_node_ind) for e in sc.edge_types] == es
                     and [tuple(e) for e in sc.edge_inds] == es and sc.n_nodes == nn and sc.n_edges == len(es))
